@@ -1465,6 +1465,19 @@ def one_spelling_per_path(ctx: Ctx, rule: str) -> int:
         accepted = {s: v for s, v in seen.items() if v != "<refused>"}
         if len(set(accepted.values())) > 1:
             bad.append("spellings of one path give different paths: " + ", ".join(f"create({s!r}) = {v!r}" for s, v in accepted.items()))
+    # ... and paths whose non-empty segments differ stay different (a segment made of white space is a segment)
+    for sa, sb in [("/a/ /b", "/a/b"), ("/a b", "/ab"), ("/a/b", "/ab"), ("/r/\t/x", "/r/x")]:
+        vals2 = []
+        for s_ in (sa, sb):
+            try:
+                o2 = Evaluator(prog).run(f, [Const(s_)])
+            except Exception as e:
+                und.append(f"create({s_!r}): {type(e).__name__}: {e}")
+                o2 = []
+            vs_ = {o.value.v for o in o2 if o.kind == "return" and isinstance(getattr(o.value, "v", None), str)}
+            vals2.append(next(iter(vs_)) if len(vs_) == 1 and all(o.kind == "return" for o in o2) else None)
+        if vals2[0] is not None and vals2[0] == vals2[1]:
+            bad.append(f"paths with different non-empty segments are made one path: create({sa!r}) = create({sb!r}) = {vals2[0]!r}: keep({sa!r}, f); keep({sb!r}, g); load({sb!r}) serves f's value")
     # the path without any segment ('/') is a prefix of every path and a location in no store: it is refused when the path is made
     for s0 in ["/", "//", pathlib.Path("/")]:
         try:
